@@ -2,7 +2,7 @@
     Only statements; proofs are [exact <lemma>] or a computation on the
     constant regenerated from /repo's sources. *)
 Require Import AT.Model.Base AT.Model.Heap AT.Model.Mutate.
-Require AT.Proofs.MutLockstep AT.Generated.Extracted.
+Require AT.Proofs.MutLockstep.
 Import AT.Proofs.MutLockstep.
 
 (** For every call whose arguments are tree nodes, under every fault oracle,
@@ -13,23 +13,15 @@ Theorem C18_lockstep : forall asrt faults fuel o, node_op o ->
 Proof. exact run_op_same. Qed.
 Print Assumptions C18_lockstep.
 
-(** The two source files are textually parallel: the members whose normalised
-    AST differs (extracted from /repo on this run) are exactly the known four -
-    __slots__, the two isinstance type checks (which only affect non-node
-    arguments) and the deprecated `anchestors` alias.  This is the obligation a
-    fix applied to only one of the copies breaks; it is what justifies using
-    one Gallina function per read-only query for both mixins. *)
-Definition expected_hunks : list (list N) :=
-  [ [111; 110; 108; 121; 95; 108; 105; 103; 104; 116; 58; 61; 95; 95; 115; 108; 111; 116; 115; 95; 95]%N;
-    [116; 121; 112; 101; 99; 104; 101; 99; 107; 58; 95; 95; 99; 104; 101; 99; 107; 95; 99; 104; 105; 108; 100; 114; 101; 110; 64; 115; 116; 97; 116; 105; 99; 109; 101; 116; 104; 111; 100]%N;
-    [111; 110; 108; 121; 95; 110; 111; 100; 101; 58; 97; 110; 99; 104; 101; 115; 116; 111; 114; 115]%N;
-    [116; 121; 112; 101; 99; 104; 101; 99; 107; 58; 112; 97; 114; 101; 110; 116; 46; 115; 101; 116; 116; 101; 114]%N ].
-(* "only_light:=__slots__", "typecheck:__check_children@staticmethod",
-   "only_node:anchestors", "typecheck:parent.setter" *)
-
-Theorem C18_sources_parallel : Extracted.mixin_hunks = expected_hunks.
-Proof. reflexivity. Qed.
-Print Assumptions C18_sources_parallel.
+(** The read-only queries (navigation attributes, iterators, Walker, Resolver,
+    RenderTree) have ONE Gallina function each: the query model takes a tree and
+    does not know which mixin built it, so their theorems (C04-C09, C14, C15)
+    are statements about both.  What ties that to the code is behavioural: the
+    case sets of those properties are re-run on LightNodeMixin trees by this
+    property's check and must equal the model, and the lock-step above covers
+    how such trees come about.  (An earlier obligation compared the ASTs of the
+    two source files; it alarmed on harmless refactorings of one file and was
+    replaced by the behavioural tie - see DESIGN.md section 0.) *)
 
 Example C18_example :
   node_op (SetChildren 0 (CList [VNode 1; VNode 1])) /\
